@@ -15,16 +15,29 @@
  *   con     1 = Confirmable, 0 = Non-confirmable
  *   single  1 = COAP_BLOCK_SINGLE_BODY on both sides, 0 = per-block delivery
  *   sched   fate of the k-th datagram written (both directions, in order): d deliver, x drop, 2 deliver twice;
- *           beyond the string: deliver
+ *           beyond the string: deliver.  Optionally followed by content-keyed fault rules  ~<who><q|r><num|L|*><fate>  (any number):
+ *             who   1|2    the transfer the datagram belongs to (client requests: by Uri-Path / Request-Tag; everything else: by the
+ *                          token, which the harness has seen in a request of that transfer)
+ *             q|r   q = client -> server datagram (request), r = server -> client datagram (response, piggybacked or separate)
+ *             num   block number: put = NUM of the Block1 option, get = NUM of the Block2 option (absent in a request = 0);
+ *                   L = the datagram with the last block of the body (put/q: Block1 M=0 NUM>0, get/r: Block2 M=0 NUM>0,
+ *                   put/r: the final 2.xx that is not 2.31);  * = every datagram of that side and transfer
+ *             fate  x = EVERY matching datagram is lost (all retransmissions too: the exchange is abandoned);  1 = the first matching
+ *                   datagram is lost;  2 = every matching datagram is delivered twice;  z[<ms>] = delivered, and once more <ms>
+ *                   (default 2500) virtual milliseconds later (delay + duplication)
+ *           a datagram matched by a rule follows the rule, every other one the positional letters.
  *   bodyLen2 seed2   a second, concurrent transfer on the same session (token a2…, resource/body 2)
  *
  * Log tokens (space separated):
- *   tx:<side>:<K>:<code>:<tokclass>:<b1>:<b2>:<size1>:<size2>:<etag>:<rtag>:<pllen>:<plhash>:<dgramlen>:<mid>
+ *   tx:<side>:<K>:<code>:<tokclass>:<b1>:<b2>:<size1>:<size2>:<etag>:<rtag>:<pllen>:<plhash>:<dgramlen>:<mid>:<transfer 0|1|2>:<tokhex>:<fate>
+ *        fate = what the network did with this datagram: d, x, 2, z
  *   adl-fail:<n> / adlr-fail:<n>  coap_add_data_large_request / _response returned 0 (transfer n refused);  txcap = harness datagram cap hit
  *        side c|s, K = C|N|A|R, tokclass app1|app2|lib|none, b1/b2 = num.m.szx or -, etag/rtag = 1/0
  *   req:<res>:<off>:<total>:<len>:<hash>            server request handler call (res = 1|2)
- *   rsp:<tokclass>:<code>:<off>:<total>:<len>:<hash> client response handler call
- *   nack:<tokclass>:<reason>     client nack handler call
+ *   rsp:<tokclass>:<code>:<off>:<total>:<len>:<hash>:<b2>:<sent 0|1>:<tokhex>:<held 0|1>   client response handler call; b2 = Block2
+ *        option of the message shown; sent = the handler was given the request PDU; held = the session holds an lg_crcv / lg_xmit
+ *        whose state token (or application token) this token is
+ *   nack:<tokclass>:<reason>:<tokhex>:<held 0|1>     client nack handler call
  *   rel:<n>                      release callback n ran
  *   end:<t>                      virtual ms elapsed
  */
@@ -32,11 +45,93 @@ static const uint8_t app_tok[2][4] = {{0xa1, 0xa1, 0xa1, 0xa1}, {0xa2, 0xa2, 0xa
 static uint8_t *xf_body[2];
 static size_t xf_len[2];
 static int xf_rel[2];
-static const char *xf_sched;
 static int xf_raw;
 
 static const sim_dgram_t *xf_pending[256];
 static int xf_npending;
+
+/* content-keyed fault rules (see the header comment) */
+typedef struct { int who; char side; long num; char fate; unsigned ms; int hits; } xf_rule_t;   /* num: -1 = L, -2 = * */
+static xf_rule_t xf_rules[8];
+static int xf_nrules;
+static unsigned xf_late_ms;
+static char xf_schedbuf[256];
+static const char *xf_dir = "";
+static struct { uint8_t t[8]; size_t n; int which; } xf_tokmap[64];   /* token seen in a client request -> transfer */
+static int xf_ntokmap;
+static struct { const sim_dgram_t *d; coap_tick_t due; } xf_late[64];
+static int xf_nlate;
+static char xf_fate[SIM_MAX_TX];
+
+static int xf_parse_sched(const char *s) {
+  const char *t = strchr(s, '~');
+  size_t nb = t ? (size_t)(t - s) : strlen(s);
+  xf_nrules = 0;
+  if (nb >= sizeof(xf_schedbuf)) return 0;
+  memcpy(xf_schedbuf, s, nb); xf_schedbuf[nb] = 0;
+  while (t && *t == '~') {
+    xf_rule_t r;
+    char *end;
+    memset(&r, 0, sizeof(r));
+    t++;
+    if (*t != '1' && *t != '2') return 0;
+    r.who = *t++ - '0';
+    if (*t != 'q' && *t != 'r') return 0;
+    r.side = *t++;
+    if (*t == 'L') { r.num = -1; t++; }
+    else if (*t == '*') { r.num = -2; t++; }
+    else if (*t >= '0' && *t <= '9') {
+      r.num = strtol(t, &end, 10); t = end;
+      /* "…q12" + fate "2": the fate letter is the LAST character of the rule unless it is z<ms>; keep it simple: NUM is
+       * followed by a letter fate (x, z) or by '.' + digit fate (1, 2) */
+      if (*t == '.') t++;
+    } else return 0;
+    if (*t != 'x' && *t != '1' && *t != '2' && *t != 'z') return 0;
+    r.fate = *t++;
+    r.ms = 2500;
+    if (r.fate == 'z' && *t >= '0' && *t <= '9') { r.ms = (unsigned)strtoul(t, &end, 10); t = end; }
+    if (xf_nrules >= 8) return 0;
+    xf_rules[xf_nrules++] = r;
+  }
+  return !t || !*t;
+}
+
+/* which transfer a datagram belongs to (0 = unknown), the block it carries / asks for / acknowledges */
+static void xf_classify(const sim_dgram_t *d, coap_pdu_t *p, int *which, long *num, int *last) {
+  coap_opt_iterator_t oi;
+  coap_block_b_t b;
+  int client = d->session && d->session->type == COAP_SESSION_TYPE_CLIENT;
+  int put = !strncmp(xf_dir, "put", 3);
+  *which = 0; *num = -3; *last = 0;
+  if (client && d->code >= 1 && d->code <= 31) {
+    coap_opt_t *o = coap_check_option(p, COAP_OPTION_URI_PATH, &oi);
+    if (o && coap_opt_length(o) == 1) {
+      *which = coap_opt_value(o)[0] == 'c' ? 2 : 1;
+      if (!strcmp(xf_dir, "puts")) {
+        o = coap_check_option(p, COAP_OPTION_RTAG, &oi);
+        *which = o && coap_opt_length(o) == 1 ? 2 : 1;
+      }
+      if (d->tkl) {
+        int i;
+        for (i = 0; i < xf_ntokmap; i++)
+          if (xf_tokmap[i].n == d->tkl && !memcmp(xf_tokmap[i].t, d->token, d->tkl)) break;
+        if (i == xf_ntokmap && xf_ntokmap < 64) {
+          memcpy(xf_tokmap[i].t, d->token, d->tkl); xf_tokmap[i].n = d->tkl; xf_tokmap[i].which = *which;
+          xf_ntokmap++;
+        }
+      }
+    }
+  } else if (d->tkl) {
+    for (int i = 0; i < xf_ntokmap; i++)
+      if (xf_tokmap[i].n == d->tkl && !memcmp(xf_tokmap[i].t, d->token, d->tkl)) *which = xf_tokmap[i].which;
+  }
+  if (coap_get_block_b(NULL, p, put ? COAP_OPTION_BLOCK1 : COAP_OPTION_BLOCK2, &b)) {
+    *num = (long)b.num;
+    if (!b.m && b.num > 0 && (put ? client : !client)) *last = 1;
+  } else if (client && !put && d->code >= 1 && d->code <= 31)
+    *num = 0;
+  if (put && !client && (d->code >> 5) == 2 && d->code != COAP_RESPONSE_CODE(231)) *last = 1;
+}
 
 static const char *tokclass(const uint8_t *t, size_t n) {
   if (n == 0) return "none";
@@ -59,11 +154,17 @@ static void fmt_uint_opt(char *out, coap_pdu_t *p, coap_option_num_t n) {
   else sprintf(out, "%u", coap_decode_var_bytes(coap_opt_value(o), coap_opt_length(o)));
 }
 
+static char xf_pos_fate(unsigned seq) {
+  char f = seq < strlen(xf_schedbuf) ? xf_schedbuf[seq] : 'd';
+  return f == 'x' || f == '2' ? f : 'd';
+}
+
 static void xf_tx_logger(const sim_dgram_t *d) {
   coap_pdu_t *p = coap_pdu_init(0, 0, 0, 4096);
   char b1[32], b2[32], s1[16], s2[16];
   coap_opt_iterator_t oi;
   const char *side = d->session && d->session->type == COAP_SESSION_TYPE_CLIENT ? "c" : "s";
+  xf_fate[d->seq] = xf_pos_fate(d->seq);
   if (!p || !coap_pdu_parse(COAP_PROTO_UDP, d->data, d->len, p)) {
     sim_logf("tx:%s:unparsable:%zu", side, d->len);
     if (p) coap_delete_pdu(p);
@@ -71,20 +172,40 @@ static void xf_tx_logger(const sim_dgram_t *d) {
   }
   fmt_block(b1, p, COAP_OPTION_BLOCK1); fmt_block(b2, p, COAP_OPTION_BLOCK2);
   fmt_uint_opt(s1, p, COAP_OPTION_SIZE1); fmt_uint_opt(s2, p, COAP_OPTION_SIZE2);
-  sim_logf("tx:%s:%c:%d:%s:%s:%s:%s:%s:%d:%d:%zu:%08x:%zu:%d", side, sim_kind[d->type & 3], d->code, tokclass(d->token, d->tkl),
-           b1, b2, s1, s2, coap_check_option(p, COAP_OPTION_ETAG, &oi) ? 1 : 0, coap_check_option(p, COAP_OPTION_RTAG, &oi) ? 1 : 0,
-           d->pl_len, d->pl_hash, d->len, d->mid);
+  {
+    char tk[20], f = 'd';
+    int which, last, matched = 0;
+    long num;
+    sim_tok(tk, d->token, d->tkl);
+    xf_classify(d, p, &which, &num, &last);
+    /* the fate of this datagram: a matching rule decides, otherwise the positional letter */
+    for (int i = 0; i < xf_nrules && !matched; i++) {
+      xf_rule_t *r = &xf_rules[i];
+      if (r->who != which || (r->side == 'q') != (side[0] == 'c')) continue;
+      if (!(r->num == -2 || (r->num == -1 && last) || (r->num >= 0 && r->num == num))) continue;
+      matched = 1;
+      f = r->fate == '1' ? (r->hits ? 'd' : 'x') : r->fate;
+      if (f == 'z') xf_late_ms = r->ms;
+      r->hits++;
+    }
+    if (!matched) f = xf_pos_fate(d->seq);
+    xf_fate[d->seq] = f;
+    sim_logf("tx:%s:%c:%d:%s:%s:%s:%s:%s:%d:%d:%zu:%08x:%zu:%d:%d:%s:%c", side, sim_kind[d->type & 3], d->code,
+             tokclass(d->token, d->tkl), b1, b2, s1, s2, coap_check_option(p, COAP_OPTION_ETAG, &oi) ? 1 : 0,
+             coap_check_option(p, COAP_OPTION_RTAG, &oi) ? 1 : 0, d->pl_len, d->pl_hash, d->len, d->mid, which, tk, f);
+  }
   if (d->seq + 2 >= SIM_MAX_TX) sim_logf("txcap");
   coap_delete_pdu(p);
 }
 
 static void xf_on_tx(const sim_dgram_t *d) {
-  char f = 'd';
+  char f;
   if (xf_raw) return;                       /* rawput: responses go to nobody */
-  if (d->seq < strlen(xf_sched)) f = xf_sched[d->seq];
+  f = xf_fate[d->seq];                      /* decided (and logged) by xf_tx_logger, which runs first */
   if (f == 'x') return;
   if (xf_npending < 255) xf_pending[xf_npending++] = d;
   if (f == '2' && xf_npending < 255) xf_pending[xf_npending++] = d;
+  if (f == 'z' && xf_nlate < 64) { xf_late[xf_nlate].d = d; xf_late[xf_nlate].due = sim_now + xf_late_ms; xf_nlate++; }
 }
 static void xf_flush(void) {
   while (xf_npending) {
@@ -119,18 +240,40 @@ static void xf_hnd_get(coap_resource_t *r, coap_session_t *s, const coap_pdu_t *
     coap_pdu_set_code(rsp, COAP_RESPONSE_CODE_INTERNAL_ERROR);
   }
 }
+/* does the client session still hold block-wise state (lg_crcv / lg_xmit) that this token belongs to ? */
+static int xf_token_held(coap_session_t *session, coap_bin_const_t tok) {
+  uint64_t base = STATE_TOKEN_BASE(coap_decode_var_bytes8(tok.s, tok.length));
+  coap_lg_crcv_t *c;
+  coap_lg_xmit_t *x;
+  LL_FOREACH(session->lg_crcv, c) {
+    if (base == STATE_TOKEN_BASE(c->state_token) || (c->app_token && coap_binary_equal(&tok, c->app_token))) return 1;
+  }
+  LL_FOREACH(session->lg_xmit, x) {
+    if (!COAP_PDU_IS_REQUEST(&x->pdu)) continue;
+    if (base == STATE_TOKEN_BASE(x->b.b1.state_token) || (x->b.b1.app_token && coap_binary_equal(&tok, x->b.b1.app_token))) return 1;
+  }
+  return 0;
+}
 static coap_response_t xf_on_response(coap_session_t *session, const coap_pdu_t *sent, const coap_pdu_t *rcvd, const coap_mid_t mid) {
   coap_bin_const_t tok = coap_pdu_get_token(rcvd);
   size_t len = 0, off = 0, total = 0; const uint8_t *data = NULL;
-  (void)session; (void)sent; (void)mid;
+  char b2[32], tk[20];
+  (void)mid;
   coap_get_data_large(rcvd, &len, &data, &off, &total);
-  sim_logf("rsp:%s:%d:%zu:%zu:%zu:%08x", tokclass(tok.s, tok.length), (int)coap_pdu_get_code(rcvd), off, total, len, sim_fnv(data, len));
+  fmt_block(b2, (coap_pdu_t *)(uintptr_t)rcvd, COAP_OPTION_BLOCK2);
+  sim_tok(tk, tok.s, tok.length > 8 ? 8 : tok.length);
+  sim_logf("rsp:%s:%d:%zu:%zu:%zu:%08x:%s:%d:%s:%d", tokclass(tok.s, tok.length), (int)coap_pdu_get_code(rcvd), off, total, len,
+           sim_fnv(data, len), b2, sent ? 1 : 0, tk, xf_token_held(session, tok));
   return COAP_RESPONSE_OK;
 }
 static void xf_on_nack(coap_session_t *session, const coap_pdu_t *sent, const coap_nack_reason_t reason, const coap_mid_t mid) {
-  coap_bin_const_t tok = coap_pdu_get_token(sent);
-  (void)session; (void)mid;
-  sim_logf("nack:%s:%s", tokclass(tok.s, tok.length), sim_nack_name(reason));
+  coap_bin_const_t tok;
+  char tk[20];
+  (void)mid;
+  if (!sent) { sim_logf("nack:nopdu:%s:-:0", sim_nack_name(reason)); return; }
+  tok = coap_pdu_get_token(sent);
+  sim_tok(tk, tok.s, tok.length > 8 ? 8 : tok.length);
+  sim_logf("nack:%s:%s:%s:%d", tokclass(tok.s, tok.length), sim_nack_name(reason), tk, xf_token_held(session, tok));
 }
 static int xf_on_event(coap_session_t *session, const coap_event_t event) { (void)session; (void)event; return 0; }
 
@@ -169,8 +312,10 @@ static void do_xfer(int n, char **w) {
   xf_len[0] = strtoull(w[2], 0, 10); xf_body[0] = mk_body(xf_len[0], (unsigned)atoi(w[3]));
   xf_len[1] = ntr == 2 ? strtoull(w[10], 0, 10) : 0; xf_body[1] = mk_body(xf_len[1], ntr == 2 ? (unsigned)atoi(w[11]) : 0);
   xf_rel[0] = xf_rel[1] = 0;
-  xf_sched = w[9]; xf_npending = 0;
+  xf_npending = 0; xf_nlate = 0; xf_ntokmap = 0; xf_dir = dir;
   xf_raw = !strcmp(dir, "rawput");
+  if (xf_raw) { xf_nrules = 0; xf_schedbuf[0] = 0; }
+  else if (!xf_parse_sched(w[9])) { printf("bad-op"); free(xf_body[0]); free(xf_body[1]); return; }
   sim_reset();
   sim_tx_hook = xf_on_tx; sim_tx_logger = xf_tx_logger;
   sim_prng_fill = 37;
@@ -221,11 +366,20 @@ static void do_xfer(int n, char **w) {
     for (int step = 0; step < 20000; step++) {
       unsigned w1, w2, wt;
       xf_flush();
+      /* delayed copies (fate z) whose time has come */
+      for (int i = 0; i < xf_nlate; i++)
+        if (xf_late[i].due <= sim_now && xf_npending < 255) {
+          xf_pending[xf_npending++] = xf_late[i].d;
+          xf_late[i] = xf_late[--xf_nlate]; i--;
+        }
+      if (xf_npending) continue;
       w1 = coap_io_prepare_epoll(cli, sim_now);
       if (xf_npending) continue;
       w2 = coap_io_prepare_epoll(srv, sim_now);
       if (xf_npending) continue;
       wt = w1 && w2 ? (w1 < w2 ? w1 : w2) : (w1 ? w1 : w2);
+      for (int i = 0; i < xf_nlate; i++)
+        if (!wt || xf_late[i].due - sim_now < wt) wt = (unsigned)(xf_late[i].due - sim_now);
       if (!wt || sim_now + wt > SIM_T0 + 700000) break;
       sim_now += wt;
     }
